@@ -24,7 +24,7 @@ CLASSES = ('InterfaceClass', 'ImportClass', 'TypeDefClass', 'DeclarationClass', 
 # ---------------------------------------------------------------------------
 
 def gen_source(g):
-    L = {'cont': g.flip('cont', 1, 3), 'semi': g.flip('semi', 1, 3), 'inline_if': g.flip('inlif', 1, 2),
+    L = {'cont': g.flip('cont', 1, 3), 'semi': g.flip('semi', 1, 3), 'inline_if': g.choose('inlif', 8),
          'kw_comment': g.flip('kwc', 1, 2), 'kw_string': g.flip('kws', 1, 2), 'label': g.flip('label', 1, 4),
          'upper': g.flip('upper', 1, 3), 'use_colons': g.flip('usecolons', 1, 6),
          'rename': g.flip('rename', 1, 2), 'iface': g.flip('iface', 1, 2), 'binding': g.flip('binding', 1, 2),
@@ -91,7 +91,15 @@ def render(L):
     for c in rest:
         body.append(f'    {c}')
     if L['inline_if']:
-        body.append('    if (n > 0) call inline_target(a)')
+        # inline IF with conditions of increasing nesting depth, a parenthesis inside a character constant,
+        # no blanks at all
+        body.append('    ' + {1: 'if (n > 0) call inline_target(a)',
+                              2: 'if (abs(a(1)) > 0.) call inline_target(a)',
+                              3: 'if (abs(a(min(n, 1))) > 0.) call inline_target(a)',
+                              4: 'if (abs(a(min(n, max(1, n)))) >= 0.) call inline_target(a)',
+                              5: "if (')' /= '(') call inline_target(a)",
+                              6: 'IF(n>0)CALL inline_target(a)',
+                              7: 'if ((n > 0) .and. (abs(b(1)) > 0.)) call inline_target(a)'}[L['inline_if']])
     if L['label']:
         body.append('10  call labelled_target(b)')
     if L['binding']:
